@@ -1,7 +1,9 @@
 package main
 
 import (
+	"fmt"
 	"go/token"
+	"go/types"
 	"strings"
 
 	"golang.org/x/tools/go/ssa"
@@ -9,13 +11,13 @@ import (
 
 func init() {
 	register("C17", &propSpec{
-		technique: "static analysis: exact guard-atom sets around the body wrapper, must-pass ordering of sort-before-store, sentinel-error identity discipline (errors.Is after foreign callees) with sibling agreement on 413, accumulator shape of the strictest-of merges",
+		technique: "static analysis: exact guard-atom sets around the body wrapper, must-pass ordering of sort-before-store, sentinel-error identity discipline (errors.Is after foreign callees) with sibling agreement on 413, decision-table extraction of the two strictest-of merge functions by abstract evaluation of their SSA (E10: groups of 0-3 sites x set/unset x every relative order)",
 		run:       runC17,
 		decided: "R1 the request body is replaced by the limiting reader under exactly {body present, path matches} using the matched entry's own limit, once, and the limit list is sorted longest-path-first before it is stored; " +
-			"R2 the limiting reader returns its sticky error before touching the source, reads at most limit+1 bytes and records the too-large sentinel; " +
+			"R2 the limiting reader returns its sticky error before touching the source, reads at most limit+1 bytes, records the too-large sentinel, never remembers any other error than the source's own or that sentinel, and answers (apart from the sticky and empty-buffer cases) only after reading the source; " +
 			"R3 the too-large sentinel is tested with errors.Is wherever the error crossed foreign code, and every body-forwarding handler (proxy: two sites, fastcgi) maps it to 413; " +
-			"R4 each shared listener setting is merged as 'set and (unset so far or smaller)', starting from unset, with defaults only when no site set it.",
-		notDecided: "off-by-one exactness over all body lengths × read sizes; whether an explicit `timeouts none` should win the merge (recorded for triage, not asserted).",
+			"R4 each shared listener setting comes out as the smallest value among the sites that set it, and as the default (header limit: untouched) exactly when none does — the full input/output table of both merge functions for every group of up to three sites.",
+		notDecided: "off-by-one exactness over all body lengths × read sizes; groups of more than three co-hosted sites (the merge is a fold of the step the table covers); whether an explicit `timeouts none` should win the merge (recorded for triage, not asserted).",
 	})
 }
 
@@ -197,7 +199,7 @@ func lenOfParamField(v ssa.Value) int {
 
 func c17R2(h H) {
 	r := h.r
-	r.Rule("R2", "sticky error and limit+1 read: maxBytesReader.Read invokes the underlying Read only on the err==nil edge, slices the buffer to at most n+1, and on the over-limit path stores httpserver.ErrMaxBytesExceeded into its sticky error and returns it", 3)
+	r.Rule("R2", "sticky error and limit+1 read: maxBytesReader.Read invokes the underlying Read only on the err==nil edge, slices the buffer to at most n+1, and on the over-limit path stores httpserver.ErrMaxBytesExceeded into its sticky error and returns it; the sticky error is only ever the source's error or that sentinel, and every other return follows a Read of the source", 5)
 	fn := h.fn("R2", limPkg, "(*maxBytesReader).Read")
 	if fn == nil {
 		return
@@ -245,6 +247,56 @@ func c17R2(h H) {
 		}
 	})
 	r.Check(stored, "R2", "limits.(*maxBytesReader).Read/records-sentinel", fn.Pos(), "going over the limit is recorded as ErrMaxBytesExceeded")
+	// the reader never invents an end of stream: its sticky error is only ever the source's own error or the
+	// too-large sentinel, and every return other than the sticky one and the empty-buffer one follows a Read of the source
+	allInstrs(fn, func(in ssa.Instruction) {
+		st, ok := in.(*ssa.Store)
+		if !ok {
+			return
+		}
+		fa, ok := st.Addr.(*ssa.FieldAddr)
+		if !ok || fieldName(fa.X.Type(), fa.Field) != "err" {
+			return
+		}
+		fromSrc := false
+		for _, rd := range reads {
+			if ex, isEx := st.Val.(*ssa.Extract); isEx && ex.Tuple == rd.(ssa.Value) && ex.Index == 1 {
+				fromSrc = true
+			}
+		}
+		r.Check(fromSrc || isGlobalLoad(st.Val, "ErrMaxBytesExceeded"), "R2", "limits.(*maxBytesReader).Read/sticky-error-source:"+describe(st.Val), st.Pos(),
+			"the error the reader remembers is the source's own error or the too-large sentinel — never a made-up end of stream that would pass a truncated body off as complete", describe(st.Val))
+	})
+	errNonNil := nilEdges(fn, false, func(v ssa.Value) bool { return readsField(v, "err") })
+	k := 0
+	for _, rt := range realReturns(fn) {
+		if onlyVia(fn, rt, errNonNil) {
+			continue // sticky
+		}
+		empty := false
+		for _, g := range guardAtoms(fn, nil, rt) {
+			if x, kind, c, ok := intCmp(g.Cond); ok && c == 0 && ((kind == "eq" && g.Pos) || (kind == "ne" && !g.Pos) || (kind == "gt" && !g.Pos)) {
+				if call, isCall := x.(*ssa.Call); isCall && calleeName(&call.Call) == "builtin.len" {
+					if _, isP := call.Call.Args[0].(*ssa.Parameter); isP {
+						empty = true
+					}
+				}
+			}
+		}
+		if empty {
+			continue
+		}
+		k++
+		ok := mustPass(fn, rt, func(in ssa.Instruction) bool {
+			for _, rd := range reads {
+				if in == rd {
+					return true
+				}
+			}
+			return false
+		})
+		r.Check(ok, "R2", sprintf("limits.(*maxBytesReader).Read/return-after-source-read#%d", k), rt.Pos(), "apart from the sticky error and the empty buffer, the reader answers only after asking the source (it cannot know the body ended at the limit without reading one byte more)")
+	}
 }
 
 func c17R3(h H) {
@@ -313,140 +365,230 @@ func c17R3(h H) {
 
 func c17R4(h H) {
 	r := h.r
-	r.Rule("R4", "strictest-of merge: makeHTTPServerWithHeaderLimit keeps an accumulator that starts unset (0), skips unset (0) candidates, takes a candidate when the accumulator is unset or the candidate is smaller, and never when it is larger; makeHTTPServerWithTimeouts takes cfg's value only under cfg's Set flag and (accumulator unset or cfg's value < accumulator's), and falls back to the default only when the accumulator is unset", 9)
-	if fn := h.fn("R4", hs, "makeHTTPServerWithHeaderLimit"); fn != nil {
-		// accumulator: the φ stored (converted) into MaxHeaderBytes
-		var acc *ssa.Phi
-		allInstrs(fn, func(in ssa.Instruction) {
-			st, ok := in.(*ssa.Store)
-			if !ok {
-				return
+	r.Rule("R4", "strictest-of merge, decided as a decision table: makeHTTPServerWithTimeouts and makeHTTPServerWithHeaderLimit are evaluated abstractly (E10: booleans concrete, durations/sizes as ordered symbols) for every group of 0–3 sites, every combination of set/unset and every relative order of the set values; in every case each listener setting must come out as the smallest value among the sites that set it, and as the default (header limit: untouched) exactly when no site set it", 2)
+	fields := []string{"ReadTimeout", "ReadHeaderTimeout", "WriteTimeout", "IdleTimeout"}
+	symRank := func(rank []int) func(a, b aval) (int, bool) {
+		rk := func(v aval) (int, bool) {
+			s, ok := v.(asym)
+			if !ok || !strings.HasPrefix(s.name, "v") {
+				return 0, false
 			}
-			fa, ok := st.Addr.(*ssa.FieldAddr)
-			if !ok || fieldName(fa.X.Type(), fa.Field) != "MaxHeaderBytes" {
-				return
+			var i int
+			if _, err := fmt.Sscanf(s.name, "v%d", &i); err != nil || i >= len(rank) {
+				return 0, false
 			}
-			derives(st.Val, func(v ssa.Value) bool {
-				if ph, ok := v.(*ssa.Phi); ok && acc == nil {
-					acc = ph
-				}
-				return false
-			}, flowOpts{})
-		})
-		if acc == nil {
-			r.Unresolve("R4", "makeHTTPServerWithHeaderLimit: accumulator not found")
-		} else {
-			// initial value
-			initZero := false
-			for k, e := range acc.Edges {
-				if !naturalLoop(acc.Block())[acc.Block().Preds[k]] {
-					if c, ok := constInt(e); ok && c == 0 {
-						initZero = true
-					}
-				}
-			}
-			r.Check(initZero, "R4", "httpserver.makeHTTPServerWithHeaderLimit/starts-unset", acc.Pos(), "the merged header limit starts as 'unset' so that the first site that sets a limit is taken whatever its position in the group")
-			var unsetTake, smallerTake, largerTake, zeroSkip bool
-			for _, i := range ifs(fn) {
-				x, kind, c, ok := intCmp(i.Cond)
-				if ok && kind == "eq" && c == 0 {
-					if x == ssa.Value(acc) || derivesPlain(x, acc) {
-						unsetTake = true
-					} else if readsField(x, "MaxRequestHeaderSize") {
-						zeroSkip = true
-					}
-				}
-				if b, ok := i.Cond.(*ssa.BinOp); ok && (b.Op == token.LSS || b.Op == token.GTR) {
-					candLeft := readsField(b.X, "MaxRequestHeaderSize")
-					candRight := readsField(b.Y, "MaxRequestHeaderSize")
-					if b.Op == token.LSS && candLeft || b.Op == token.GTR && candRight {
-						smallerTake = true
-					}
-					if b.Op == token.GTR && candLeft || b.Op == token.LSS && candRight {
-						largerTake = true
-					}
-				}
-			}
-			r.Check(unsetTake && smallerTake && !largerTake && zeroSkip, "R4", "httpserver.makeHTTPServerWithHeaderLimit/min-merge", fn.Pos(),
-				"a candidate replaces the accumulator when the accumulator is unset or the candidate is smaller; unset candidates are skipped", sprintf("take-when-unset:%v take-when-smaller:%v take-when-larger:%v skip-zero:%v", unsetTake, smallerTake, largerTake, zeroSkip))
+			return rank[i], true
 		}
+		return func(a, b aval) (int, bool) {
+			ra, oka := rk(a)
+			rb, okb := rk(b)
+			if oka && okb {
+				switch {
+				case ra < rb:
+					return -1, true
+				case ra > rb:
+					return 1, true
+				}
+				return 0, true
+			}
+			return 0, false
+		}
+	}
+	type caseT struct {
+		set  []bool
+		rank []int
+	}
+	var cases []caseT
+	for n := 0; n <= 3; n++ {
+		for m := 0; m < 1<<n; m++ {
+			set := make([]bool, n)
+			for i := range set {
+				set[i] = m&(1<<i) != 0
+			}
+			for _, rk := range weakOrders(n) {
+				cases = append(cases, caseT{set, rk})
+			}
+		}
+	}
+	caseDesc := func(c caseT) string {
+		var parts []string
+		for i, s := range c.set {
+			if s {
+				parts = append(parts, sprintf("site%d sets v%d(rank %d)", i, i, c.rank[i]))
+			} else {
+				parts = append(parts, sprintf("site%d unset", i))
+			}
+		}
+		return "[" + strings.Join(parts, ", ") + "]"
+	}
+	want := func(c caseT) (min int, any bool) {
+		min = -1
+		for i, s := range c.set {
+			if s && (min < 0 || c.rank[i] < c.rank[min]) {
+				min = i
+			}
+		}
+		return min, min >= 0
+	}
+	okResult := func(c caseT, got aval, unsetWant string) (bool, string) {
+		m, any := want(c)
+		s, isSym := got.(asym)
+		if !any {
+			if isSym && s.name == unsetWant {
+				return true, ""
+			}
+			return false, sprintf("no site sets it: want %s, got %s", unsetWant, describeAval(got))
+		}
+		if isSym && strings.HasPrefix(s.name, "v") {
+			var k int
+			fmt.Sscanf(s.name, "v%d", &k)
+			if k < len(c.set) && c.set[k] && c.rank[k] == c.rank[m] {
+				return true, ""
+			}
+		}
+		return false, sprintf("want v%d (the smallest set value), got %s", m, describeAval(got))
 	}
 	if fn := h.fn("R4", hs, "makeHTTPServerWithTimeouts"); fn != nil {
-		for _, f := range []string{"ReadTimeout", "ReadHeaderTimeout", "WriteTimeout", "IdleTimeout"} {
-			var takes, defaults []*ssa.Store
-			allInstrs(fn, func(in ssa.Instruction) {
-				st, ok := in.(*ssa.Store)
+		bad := ""
+		nrun := 0
+		for _, c := range cases {
+			c := c
+			env := &absEnv{cmp: symRank(c.rank), globals: map[string]*aobj{}}
+			if g := fnPkgVar(fn, "defaultTimeouts"); g != nil {
+				env.globals["defaultTimeouts"] = &aobj{name: "defaultTimeouts", typ: g, f: map[string]aval{}, in: func(o *aobj, path string, t types.Type) aval {
+					if strings.HasSuffix(path, "Set") {
+						return abool(true)
+					}
+					return asym{"default." + path}
+				}}
+			}
+			mk := func() []aval {
+				var sl aslice
+				for i := range c.set {
+					i := i
+					sl.elems = append(sl.elems, &aobj{name: sprintf("site%d", i), typ: fn.Params[1].Type().(*types.Slice).Elem().(*types.Pointer).Elem(), f: map[string]aval{}, in: func(o *aobj, path string, t types.Type) aval {
+						for _, f := range fields {
+							if path == "Timeouts."+f+"Set" {
+								return abool(c.set[i])
+							}
+							if path == "Timeouts."+f {
+								if c.set[i] {
+									return asym{sprintf("v%d", i)}
+								}
+								return aint(0)
+							}
+						}
+						return aunk{"site field " + path}
+					}})
+				}
+				return []aval{astr("addr"), sl}
+			}
+			env.runForks(fn, mk, func(res aval, und string, forks int) bool {
+				nrun++
+				if und != "" {
+					bad = caseDesc(c) + ": undecided — " + und
+					return false
+				}
+				p, ok := res.(aptr)
 				if !ok {
-					return
+					bad = caseDesc(c) + ": result is not a server: " + describeAval(res)
+					return false
 				}
-				fa, ok := st.Addr.(*ssa.FieldAddr)
-				if !ok || fieldName(fa.X.Type(), fa.Field) != f {
-					return
+				for _, f := range fields {
+					got := env.load(p.obj, f)
+					if ok, why := okResult(c, got, "default."+f); !ok {
+						bad = caseDesc(c) + ": " + f + ": " + why
+						return false
+					}
 				}
-				if _, isAlloc := rootOf(fa).(*ssa.Alloc); !isAlloc {
-					return
-				}
-				if strings.HasSuffix(strings.TrimPrefix(rootOf(fa).Type().String(), "*"), "net/http.Server") {
-					return
-				}
-				p, root := fieldPath(st.Val)
-				if g, isG := root.(*ssa.Global); isG && g.Name() == "defaultTimeouts" {
-					defaults = append(defaults, st)
-				} else if (strings.HasSuffix(p, "Timeouts."+f) || p == f) && root != rootOf(fa) {
-					// a site's value (read from the site config or from a local copy of its Timeouts) stored into the accumulator
-					takes = append(takes, st)
-				}
+				return true
 			})
-			if len(takes) == 0 {
-				r.Unresolve("R4", "makeHTTPServerWithTimeouts: merge store for "+f+" not found")
-				continue
-			}
-			for _, st := range takes {
-				acc := rootOf(st.Addr)
-				isAcc := func(root ssa.Value) bool { return root == acc }
-				setEdges := guardEdges(fn, true, func(v ssa.Value) bool {
-					p, root := fieldPath(v)
-					return (strings.HasSuffix(p, "Timeouts."+f+"Set") || p == f+"Set") && !isAcc(root)
-				})
-				accUnset := guardEdges(fn, false, func(v ssa.Value) bool {
-					p, root := fieldPath(v)
-					return p == f+"Set" && isAcc(root)
-				})
-				smaller := map[edge]bool{}
-				larger := false
-				for _, i := range ifs(fn) {
-					v, flip := stripNot(i.Cond)
-					b, ok := v.(*ssa.BinOp)
-					if !ok || (b.Op != token.LSS && b.Op != token.GTR && b.Op != token.LEQ && b.Op != token.GEQ) {
-						continue
-					}
-					px, rx := fieldPath(b.X)
-					py, ry := fieldPath(b.Y)
-					xAcc, yAcc := isAcc(rx), isAcc(ry)
-					if !(strings.HasSuffix(px, f) && strings.HasSuffix(py, f)) || xAcc == yAcc {
-						continue
-					}
-					// the outcome on which the site's value is strictly smaller than the accumulator's
-					switch {
-					case b.Op == token.LSS && yAcc, b.Op == token.GTR && xAcc:
-						smaller[condEdge{i, !flip}.edge()] = true
-					case b.Op == token.GEQ && yAcc, b.Op == token.LEQ && xAcc:
-						smaller[condEdge{i, flip}.edge()] = true
-					default:
-						larger = true
-					}
-				}
-				ok := onlyVia(fn, st, setEdges) && onlyVia(fn, st, mergeEdges(accUnset, smaller)) && len(smaller) > 0 && !larger
-				r.Check(ok, "R4", "httpserver.makeHTTPServerWithTimeouts/"+f+"-min-merge", st.Pos(), "the listener's "+f+" becomes a site's value only if that site set it and it is the first set value or smaller than the one kept so far")
-			}
-			for _, st := range defaults {
-				unset := guardEdges(fn, false, func(v ssa.Value) bool {
-					p, root := fieldPath(v)
-					_, isAlloc := root.(*ssa.Alloc)
-					return p == f+"Set" && isAlloc
-				})
-				r.Check(onlyVia(fn, st, unset), "R4", "httpserver.makeHTTPServerWithTimeouts/"+f+"-default-only-if-unset", st.Pos(), "the default "+f+" applies only when no site of the group set one")
+			if bad != "" {
+				break
 			}
 		}
+		r.Check(bad == "", "R4", "httpserver.makeHTTPServerWithTimeouts/decision-table", fn.Pos(),
+			"for every group of up to three sites the four listener timeouts are the smallest values set by any site, or the defaults when none sets one", sprintf("%d cases evaluated", nrun), bad)
 	}
+	if fn := h.fn("R4", hs, "makeHTTPServerWithHeaderLimit"); fn != nil {
+		bad := ""
+		nrun := 0
+		for _, c := range cases {
+			c := c
+			base := symRank(c.rank)
+			env := &absEnv{globals: map[string]*aobj{}, cmp: func(a, b aval) (int, bool) {
+				if x, ok := base(a, b); ok {
+					return x, true
+				}
+				// configured sizes are positive; 0 encodes 'unset'
+				if s, ok := a.(asym); ok && strings.HasPrefix(s.name, "v") {
+					if z, ok := b.(aint); ok && z == 0 {
+						return 1, true
+					}
+				}
+				if s, ok := b.(asym); ok && strings.HasPrefix(s.name, "v") {
+					if z, ok := a.(aint); ok && z == 0 {
+						return -1, true
+					}
+				}
+				return 0, false
+			}}
+			mk := func() []aval {
+				var sl aslice
+				for i := range c.set {
+					i := i
+					sl.elems = append(sl.elems, &aobj{name: sprintf("site%d", i), typ: fn.Params[1].Type().(*types.Slice).Elem().(*types.Pointer).Elem(), f: map[string]aval{}, in: func(o *aobj, path string, t types.Type) aval {
+						if path == "Limits.MaxRequestHeaderSize" {
+							if c.set[i] {
+								return asym{sprintf("v%d", i)}
+							}
+							return aint(0)
+						}
+						return aunk{"site field " + path}
+					}})
+				}
+				srv := &aobj{name: "server", typ: fn.Params[0].Type().(*types.Pointer).Elem(), f: map[string]aval{}, in: func(o *aobj, path string, t types.Type) aval {
+					if path == "MaxHeaderBytes" {
+						return asym{"untouched"}
+					}
+					return aunk{"server field " + path}
+				}}
+				return []aval{aptr{srv, ""}, sl}
+			}
+			env.runForks(fn, mk, func(res aval, und string, forks int) bool {
+				nrun++
+				if und != "" {
+					bad = caseDesc(c) + ": undecided — " + und
+					return false
+				}
+				p, ok := res.(aptr)
+				if !ok {
+					bad = caseDesc(c) + ": result is not a server: " + describeAval(res)
+					return false
+				}
+				got := env.load(p.obj, "MaxHeaderBytes")
+				if ok, why := okResult(c, got, "untouched"); !ok {
+					bad = caseDesc(c) + ": MaxHeaderBytes: " + why
+					return false
+				}
+				return true
+			})
+			if bad != "" {
+				break
+			}
+		}
+		r.Check(bad == "", "R4", "httpserver.makeHTTPServerWithHeaderLimit/decision-table", fn.Pos(),
+			"for every group of up to three sites the listener's header limit is the smallest limit set by any site, and is left alone when none sets one", sprintf("%d cases evaluated", nrun), bad)
+	}
+}
+
+// fnPkgVar: the type of a package-level variable of fn's package.
+func fnPkgVar(fn *ssa.Function, name string) types.Type {
+	if fn.Pkg == nil {
+		return nil
+	}
+	if g, ok := fn.Pkg.Members[name].(*ssa.Global); ok {
+		return g.Type().(*types.Pointer).Elem()
+	}
+	return nil
 }
